@@ -28,10 +28,12 @@ the opcode tracer off and re-enables it for exactly that comparison, so CrossHai
 a path costs ~5 ms instead of ~0.6 s, which is what makes two and three fault positions affordable.  (Fully traced,
 the single-session / two-fault version of one harness did not confirm within 150 s.)
 
-Scenario per explored path: session A (faults armed) -> state check -> session A2 of the same shape (faults still
-armed; so the second fault can hit the session that follows a damaged one) -> state check -> faults disarmed ->
-session B, a plain immediate write session ("a following session") -> state check -> (SQLite) session C in a
-different thread -> db.disconnect() -> final accounting.
+Scenario per explored path: session A (faults armed) -> state check -> [thorough tier: session A2 of the same shape
+with the faults still armed, so that a later fault can hit the session that follows a damaged one -> state check] ->
+faults disarmed -> session B, a plain immediate write session in the same thread ("a following session") -> state
+check -> (SQLite) session C in a different thread -> db.disconnect() -> final accounting.
+Quick tier: two fault positions for exception class 0, one for classes 1 and 2.  Thorough tier: three fault
+positions, all classes, A2 armed.
 
 Reference statement of the property (functions `_state_ok`, `_scenario_body`):
   R1 the provider's transaction lock and pre-transaction lock are free; no acquire ever found the lock held
@@ -70,6 +72,8 @@ from engine import fakedb as F
 
 NMAX = int(os.environ.get('C19_NMAX', '80'))          # fault numbers range over 0..NMAX; every armed call is below it (checked)
 K3MAX = int(os.environ.get('C19_K3MAX', '0'))         # thorough tier: a third fault position (set to NMAX)
+ARMED2 = os.environ.get('C19_ARMED2') == '1'          # thorough tier: a second session of the same shape runs with the faults still armed
+FULL = os.environ.get('C19_FULL') == '1'              # thorough tier: fault pairs for every exception class (quick: pairs only for class 0)
 MIDS = 8
 
 rec = None
@@ -102,62 +106,7 @@ def _counting(cls):
     return Counting
 
 
-def _make_sqlite(filename):
-    from pony.orm import Database, PrimaryKey, Required
-    from pony.orm.dbproviders import sqlite as psqlite
-    F.patch_sqlite_driver(rec)
-    pool = _counting(psqlite.SQLitePool)(False, filename, True)
-    db = Database()
-    db.provider_name = 'sqlite'
-    db._bind(psqlite.SQLiteProvider, filename, pony_pool_mockup=pool)
-
-    class T(db.Entity):
-        id = PrimaryKey(int)
-        a = Required(int)
-    db.generate_mapping(check_tables=False)
-    db.T = T
-    return db
-
-
-def _make_pg():
-    from engine import env
-    env.install_driver_stubs()
-    import psycopg2
-    from pony.orm import Database, PrimaryKey, Required
-    from pony.orm.dbproviders import postgres as ppg
-    mod = F.FakeModule(rec, base=psycopg2, tx_model='pep249', name='psycopg2')
-    pool = _counting(ppg.PGPool)(mod)
-    db = Database()
-    db.provider_name = 'postgres'
-    db._bind(ppg.PGProvider, pony_pool_mockup=pool)
-
-    class T(db.Entity):
-        id = PrimaryKey(int)
-        a = Required(int)
-    db.generate_mapping(check_tables=False)
-    db.T = T
-    return db
-
-
-def _make_mysql():
-    from engine import env
-    env.install_driver_stubs()
-    import MySQLdb
-    from pony.orm import Database, PrimaryKey, Required
-    from pony.orm.dbproviders import mysql as pmy
-    from pony.orm.dbapiprovider import Pool
-    mod = F.FakeModule(rec, base=MySQLdb, tx_model='pep249', name='MySQLdb')
-    pool = _counting(Pool)(mod)
-    db = Database()
-    db.provider_name = 'mysql'
-    db._bind(pmy.MySQLProvider, pony_pool_mockup=pool)
-
-    class T(db.Entity):
-        id = PrimaryKey(int)
-        a = Required(int)
-    db.generate_mapping(check_tables=False)
-    db.T = T
-    return db
+KIND = {'file': 'sqlite-file', 'mem': 'sqlite-memory', 'pg': 'postgres', 'my': 'mysql'}
 
 
 STALE = []          # connections returned by prepare_connection_for_query_execution that were not the cache's connection
@@ -189,10 +138,8 @@ def setup():
     core.time = lambda: 0.0
     _watch_prepare()
     rec = F.Recorder()
-    DBS['file'] = _make_sqlite('/verif-fake/db.sqlite')
-    DBS['mem'] = _make_sqlite(':memory:')
-    DBS['pg'] = _make_pg()
-    DBS['my'] = _make_mysql()
+    for k in KIND:
+        DBS[k] = F.make_database(KIND[k], rec, wrap_pool=_counting)
     for kind in DBS:
         for shape in range(5):
             for mid in range(MIDS):
@@ -206,28 +153,15 @@ def _reset(kind, faults, exc_kind):
     pool.con = None
     for name in ('pid', 'checkouts', 'returns', 'in_release'):
         pool.__dict__.pop(name, None)
-    if kind == 'pg':
-        import psycopg2
-        def make(op):
-            if exc_kind == 2: return F.InjectedFault('injected fault in %s' % op)
-            e = (psycopg2.IntegrityError if exc_kind else psycopg2.OperationalError)('injected fault in %s' % op)
-            e.pgcode = None            # OperationalError without a code = "connection lost": should_reconnect says yes
-            return e
-        rec.reset(faults=faults, exc_factory=make)
-        F.reset_session_state(db)
-    elif kind == 'my':
-        import MySQLdb
-        def make(op):                  # 2006 "server has gone away": MySQLProvider.should_reconnect says yes
-            if exc_kind == 2: return F.InjectedFault('injected fault in %s' % op)
-            return (MySQLdb.IntegrityError if exc_kind else MySQLdb.OperationalError)(2006, 'injected fault in %s' % op)
-        rec.reset(faults=faults, exc_factory=make)
-        F.reset_session_state(db)
-    else:
+    rec.reset(faults=faults, exc_factory=F.driver_exc_factory(KIND[kind], exc_kind))
+    if kind in ('file', 'mem'):
         F.patch_sqlite_driver(rec)
-        rec.reset(faults=faults, exc_factory=F.sqlite_exc_factory(exc_kind))
         F.reset_sqlite_database(db)
         if not FRESH_THREAD[0]:
             pool.pid = os.getpid()     # the state of the thread that bound the database (provider.__init__ connected once)
+    else:
+        pool.pid = None
+        F.reset_session_state(db)
     return db
 
 
@@ -356,7 +290,7 @@ def _scenario_body(kind, shape, faults, raises, mid, exc_kind):
     db = _reset(kind, faults, exc_kind)
     why = []
     LAST.clear(); LAST.update(why=why, rec=rec)
-    for nth in (0, 1):
+    for nth in ((0, 1) if ARMED2 else (0,)):
         try:
             if nth == 0: _session(db, shape, raises, mid, 10)
             else: _session(db, shape, False, 0, 20)
@@ -414,6 +348,7 @@ def file_ro(k1: int, k2: int, k3: int, raises: bool, mid: int, exc: int) -> bool
     pre: (k3 == 0) or (0 < k2 < k3 <= K3MAX)
     pre: 0 <= mid < MIDS
     pre: 0 <= exc <= 2
+    pre: FULL or exc == 0 or k2 == 0
     post: _
     """
     return ok(_scenario('file', 0, k1, k2, k3, raises, mid, exc))
@@ -427,6 +362,7 @@ def file_opt(k1: int, k2: int, k3: int, raises: bool, mid: int, exc: int) -> boo
     pre: (k3 == 0) or (0 < k2 < k3 <= K3MAX)
     pre: 0 <= mid < MIDS
     pre: 0 <= exc <= 2
+    pre: FULL or exc == 0 or k2 == 0
     post: _
     """
     return ok(_scenario('file', 1, k1, k2, k3, raises, mid, exc))
@@ -440,6 +376,7 @@ def file_imm(k1: int, k2: int, k3: int, raises: bool, mid: int, exc: int) -> boo
     pre: (k3 == 0) or (0 < k2 < k3 <= K3MAX)
     pre: 0 <= mid < MIDS
     pre: 0 <= exc <= 2
+    pre: FULL or exc == 0 or k2 == 0
     post: _
     """
     return ok(_scenario('file', 2, k1, k2, k3, raises, mid, exc))
@@ -453,6 +390,7 @@ def file_ser(k1: int, k2: int, k3: int, raises: bool, mid: int, exc: int) -> boo
     pre: (k3 == 0) or (0 < k2 < k3 <= K3MAX)
     pre: 0 <= mid < MIDS
     pre: 0 <= exc <= 2
+    pre: FULL or exc == 0 or k2 == 0
     post: _
     """
     return ok(_scenario('file', 3, k1, k2, k3, raises, mid, exc))
@@ -466,6 +404,7 @@ def file_ddl(k1: int, k2: int, k3: int, raises: bool, mid: int, exc: int) -> boo
     pre: (k3 == 0) or (0 < k2 < k3 <= K3MAX)
     pre: 0 <= mid < MIDS
     pre: 0 <= exc <= 2
+    pre: FULL or exc == 0 or k2 == 0
     post: _
     """
     return ok(_scenario('file', 4, k1, k2, k3, raises, mid, exc))
@@ -479,6 +418,7 @@ def mem_ro(k1: int, k2: int, k3: int, raises: bool, mid: int, exc: int) -> bool:
     pre: (k3 == 0) or (0 < k2 < k3 <= K3MAX)
     pre: 0 <= mid < MIDS
     pre: 0 <= exc <= 2
+    pre: FULL or exc == 0 or k2 == 0
     post: _
     """
     return ok(_scenario('mem', 0, k1, k2, k3, raises, mid, exc))
@@ -492,6 +432,7 @@ def mem_opt(k1: int, k2: int, k3: int, raises: bool, mid: int, exc: int) -> bool
     pre: (k3 == 0) or (0 < k2 < k3 <= K3MAX)
     pre: 0 <= mid < MIDS
     pre: 0 <= exc <= 2
+    pre: FULL or exc == 0 or k2 == 0
     post: _
     """
     return ok(_scenario('mem', 1, k1, k2, k3, raises, mid, exc))
@@ -505,6 +446,7 @@ def mem_imm(k1: int, k2: int, k3: int, raises: bool, mid: int, exc: int) -> bool
     pre: (k3 == 0) or (0 < k2 < k3 <= K3MAX)
     pre: 0 <= mid < MIDS
     pre: 0 <= exc <= 2
+    pre: FULL or exc == 0 or k2 == 0
     post: _
     """
     return ok(_scenario('mem', 2, k1, k2, k3, raises, mid, exc))
@@ -518,6 +460,7 @@ def mem_ser(k1: int, k2: int, k3: int, raises: bool, mid: int, exc: int) -> bool
     pre: (k3 == 0) or (0 < k2 < k3 <= K3MAX)
     pre: 0 <= mid < MIDS
     pre: 0 <= exc <= 2
+    pre: FULL or exc == 0 or k2 == 0
     post: _
     """
     return ok(_scenario('mem', 3, k1, k2, k3, raises, mid, exc))
@@ -531,6 +474,7 @@ def mem_ddl(k1: int, k2: int, k3: int, raises: bool, mid: int, exc: int) -> bool
     pre: (k3 == 0) or (0 < k2 < k3 <= K3MAX)
     pre: 0 <= mid < MIDS
     pre: 0 <= exc <= 2
+    pre: FULL or exc == 0 or k2 == 0
     post: _
     """
     return ok(_scenario('mem', 4, k1, k2, k3, raises, mid, exc))
@@ -544,6 +488,7 @@ def pg_ro(k1: int, k2: int, k3: int, raises: bool, mid: int, exc: int) -> bool:
     pre: (k3 == 0) or (0 < k2 < k3 <= K3MAX)
     pre: 0 <= mid < MIDS
     pre: 0 <= exc <= 2
+    pre: FULL or exc == 0 or k2 == 0
     post: _
     """
     return ok(_scenario('pg', 0, k1, k2, k3, raises, mid, exc))
@@ -557,6 +502,7 @@ def pg_opt(k1: int, k2: int, k3: int, raises: bool, mid: int, exc: int) -> bool:
     pre: (k3 == 0) or (0 < k2 < k3 <= K3MAX)
     pre: 0 <= mid < MIDS
     pre: 0 <= exc <= 2
+    pre: FULL or exc == 0 or k2 == 0
     post: _
     """
     return ok(_scenario('pg', 1, k1, k2, k3, raises, mid, exc))
@@ -570,6 +516,7 @@ def pg_imm(k1: int, k2: int, k3: int, raises: bool, mid: int, exc: int) -> bool:
     pre: (k3 == 0) or (0 < k2 < k3 <= K3MAX)
     pre: 0 <= mid < MIDS
     pre: 0 <= exc <= 2
+    pre: FULL or exc == 0 or k2 == 0
     post: _
     """
     return ok(_scenario('pg', 2, k1, k2, k3, raises, mid, exc))
@@ -583,6 +530,7 @@ def pg_ser(k1: int, k2: int, k3: int, raises: bool, mid: int, exc: int) -> bool:
     pre: (k3 == 0) or (0 < k2 < k3 <= K3MAX)
     pre: 0 <= mid < MIDS
     pre: 0 <= exc <= 2
+    pre: FULL or exc == 0 or k2 == 0
     post: _
     """
     return ok(_scenario('pg', 3, k1, k2, k3, raises, mid, exc))
@@ -596,6 +544,7 @@ def pg_ddl(k1: int, k2: int, k3: int, raises: bool, mid: int, exc: int) -> bool:
     pre: (k3 == 0) or (0 < k2 < k3 <= K3MAX)
     pre: 0 <= mid < MIDS
     pre: 0 <= exc <= 2
+    pre: FULL or exc == 0 or k2 == 0
     post: _
     """
     return ok(_scenario('pg', 4, k1, k2, k3, raises, mid, exc))
@@ -609,6 +558,7 @@ def my_ro(k1: int, k2: int, k3: int, raises: bool, mid: int, exc: int) -> bool:
     pre: (k3 == 0) or (0 < k2 < k3 <= K3MAX)
     pre: 0 <= mid < MIDS
     pre: 0 <= exc <= 2
+    pre: FULL or exc == 0 or k2 == 0
     post: _
     """
     return ok(_scenario('my', 0, k1, k2, k3, raises, mid, exc))
@@ -622,6 +572,7 @@ def my_opt(k1: int, k2: int, k3: int, raises: bool, mid: int, exc: int) -> bool:
     pre: (k3 == 0) or (0 < k2 < k3 <= K3MAX)
     pre: 0 <= mid < MIDS
     pre: 0 <= exc <= 2
+    pre: FULL or exc == 0 or k2 == 0
     post: _
     """
     return ok(_scenario('my', 1, k1, k2, k3, raises, mid, exc))
@@ -635,6 +586,7 @@ def my_imm(k1: int, k2: int, k3: int, raises: bool, mid: int, exc: int) -> bool:
     pre: (k3 == 0) or (0 < k2 < k3 <= K3MAX)
     pre: 0 <= mid < MIDS
     pre: 0 <= exc <= 2
+    pre: FULL or exc == 0 or k2 == 0
     post: _
     """
     return ok(_scenario('my', 2, k1, k2, k3, raises, mid, exc))
@@ -648,6 +600,7 @@ def my_ser(k1: int, k2: int, k3: int, raises: bool, mid: int, exc: int) -> bool:
     pre: (k3 == 0) or (0 < k2 < k3 <= K3MAX)
     pre: 0 <= mid < MIDS
     pre: 0 <= exc <= 2
+    pre: FULL or exc == 0 or k2 == 0
     post: _
     """
     return ok(_scenario('my', 3, k1, k2, k3, raises, mid, exc))
@@ -661,6 +614,7 @@ def my_ddl(k1: int, k2: int, k3: int, raises: bool, mid: int, exc: int) -> bool:
     pre: (k3 == 0) or (0 < k2 < k3 <= K3MAX)
     pre: 0 <= mid < MIDS
     pre: 0 <= exc <= 2
+    pre: FULL or exc == 0 or k2 == 0
     post: _
     """
     return ok(_scenario('my', 4, k1, k2, k3, raises, mid, exc))
